@@ -1,5 +1,5 @@
 #!/venv/bin/python
-"""Rewrite DESIGN.md section 10.4 (between the SEEDED-MATRIX markers) from seeded/*/meta.json."""
+"""Rewrite DESIGN.md section 10.6 (between the SEEDED-MATRIX markers) from seeded/*/meta.json."""
 import glob, json, os, re
 ROOT = os.path.dirname(os.path.dirname(os.path.abspath(__file__)))
 rows = []
@@ -32,6 +32,6 @@ block = "<!-- SEEDED-MATRIX-BEGIN -->\n" + table + "\n<!-- SEEDED-MATRIX-END -->
 if "<!-- SEEDED-MATRIX-BEGIN -->" in s:
     s = re.sub(r"<!-- SEEDED-MATRIX-BEGIN -->.*?<!-- SEEDED-MATRIX-END -->", lambda m: block, s, flags=re.S)
 else:
-    s += "\n### 10.4 Seeded changes and which checks catch them\nEach change lives in `seeded/<name>/` (patch.diff, demo.py, notes.md, meta.json). Origin: independent sub-agents given only the\nproperty text (`Cxx-a/b`, second round `Cxx-r2a/b` asked for subtler changes), plus the reverse patches of this work's own `fix:` commits\n(`revert-<commit>`). Each was confirmed in a scratch worktree (patch applies, demo fails with it and passes without, test suite shows no\nnew failure) and tried with `tools/mutest.py` (scratch worktree + `VERIF_REPO`, the equivalent of apply / check / checkout in /repo).\nChecks that missed a change at first were strengthened (the generator or oracle, never by weakening) — see git log of /verif.\n\n" + block + "\n"
+    s += "\n### 10.6 Seeded changes and which checks catch them\nEach change lives in `seeded/<name>/` (patch.diff, demo.py, notes.md, meta.json). Origin: independent sub-agents given only the\nproperty text (`Cxx-a/b`, second round `Cxx-r2a/b` asked for subtler changes), plus the reverse patches of this work's own `fix:` commits\n(`revert-<commit>`). Each was confirmed in a scratch worktree (patch applies, demo fails with it and passes without, test suite shows no\nnew failure) and tried with `tools/mutest.py` (scratch worktree + `VERIF_REPO`, the equivalent of apply / check / checkout in /repo).\nChecks that missed a change at first were strengthened (the generator or oracle, never by weakening) — see git log of /verif.\n\n" + block + "\n"
 open(p, "w").write(s)
 print(len(rows), "rows")
